@@ -735,7 +735,11 @@ fn case_close(kv: &Kv) -> String {
             }
         })
         .collect();
+    similar::verif::reset_last_deadline();
     let r = similar::get_close_matches(w, &cs, n, cutoff);
+    if similar::verif::last_deadline().is_some() {
+        panic!("get_close_matches ran its diffs under a deadline");
+    }
     // the [u8] instance of the same call (valid UTF-8: same characters, same ratios, same byte-wise order)
     {
         let cb: Vec<&[u8]> = cs.iter().map(|c| c.as_bytes()).collect();
